@@ -27,6 +27,8 @@ pub async fn insert_and_maybe_flush(
                 event.context_id
             );
             wal.append(WalEntry::from_event(&event)).await;
+            #[cfg(feature = "verif-hooks")]
+            crate::verif_hooks::point("ins.wal_sent", ctx.id as u64);
         }
     }
 
@@ -38,6 +40,8 @@ pub async fn insert_and_maybe_flush(
         "Inserting event into MemTable"
     );
     ctx.memtable.insert(event)?;
+    #[cfg(feature = "verif-hooks")]
+    crate::verif_hooks::point("ins.mem_inserted", ctx.id as u64);
 
     // 3. If MemTable is full, flush and rotate
     if ctx.memtable.is_full() {
@@ -52,6 +56,8 @@ pub async fn insert_and_maybe_flush(
 
         let passive_arc = ctx.passive_buffers.add_from(&ctx.memtable).await;
         let flushed_mem = std::mem::replace(&mut ctx.memtable, MemTable::new(capacity));
+        #[cfg(feature = "verif-hooks")]
+        crate::verif_hooks::point("ins.rotated", current_segment_id);
 
         debug!(
             target: "sneldb::store",
@@ -71,6 +77,8 @@ pub async fn insert_and_maybe_flush(
                 None,
             )
             .await?;
+        #[cfg(feature = "verif-hooks")]
+        crate::verif_hooks::point("ins.queued", current_segment_id);
 
         // Opportunistic pruning: every max_inflight/2 rotations
         let prune_every = std::cmp::max(1, ctx.passive_buffers.max_inflight() / 2);
